@@ -163,30 +163,39 @@ func (s *Group) pullBrightnessActions(request *traits.PullBrightnessRequest, mem
 
 func (s *Group) reduce(results []proto.Message) *traits.Brightness {
 	val := new(traits.Brightness)
-	for i, result := range results {
+	n := 0 // how many members have been averaged into val; members without a result don't count
+	for _, result := range results {
 		if result == nil {
 			continue
 		}
 		typedResult := result.(*traits.Brightness)
-		val = s.reduceBrightness(val, typedResult, i)
+		val = s.reduceBrightness(val, typedResult, n)
+		if typedResult != nil {
+			n++
+		}
 	}
 	return val
 }
 
 func (s *Group) reduceBrightnessChanges(arr []*traits.PullBrightnessResponse_Change) *traits.PullBrightnessResponse_Change {
 	val := &traits.PullBrightnessResponse_Change{}
-	for i, change := range arr {
+	n := 0 // how many members have been averaged into val; members we haven't heard from don't count
+	for _, change := range arr {
 		if change == nil {
 			// nil changes happen because the incoming array can be partially populated
 			// depending on whether we've received anything from a group member
 			continue
 		}
-		val.Brightness = s.reduceBrightness(val.Brightness, change.Brightness, i)
+		val.Brightness = s.reduceBrightness(val.Brightness, change.Brightness, n)
+		if change.Brightness != nil {
+			n++
+		}
 	}
 	return val
 }
 
-func (s *Group) reduceBrightness(acc, v *traits.Brightness, i int) *traits.Brightness {
+// reduceBrightness folds v into acc, which already holds the average of n members.
+func (s *Group) reduceBrightness(acc, v *traits.Brightness, n int) *traits.Brightness {
 	if v == nil {
 		return acc
 	}
@@ -197,7 +206,7 @@ func (s *Group) reduceBrightness(acc, v *traits.Brightness, i int) *traits.Brigh
 	}
 
 	// average strategy
-	acc.LevelPercent = (acc.LevelPercent*float32(i) + v.LevelPercent) / (float32(i) + 1)
+	acc.LevelPercent = (acc.LevelPercent*float32(n) + v.LevelPercent) / (float32(n) + 1)
 
 	return acc
 }
